@@ -108,12 +108,11 @@ Definition ds_set_dims (ns : list string) (s : dset) : dset * res unit :=
                     match snd acc with
                     | Ok _ => rename_id (fst acc) (fst p) (snd p)
                     | Err e => acc end) (combine (dsax s) ns) (s, Ok tt).
-(* rename_axes(mapper) *)
+(* rename_axes(mapper): all names at once (a swap or a chain of names works), through the validated ds.dims = (...) *)
 Definition ds_rename_axes (m : list (string * string)) (s : dset) : dset * res unit :=
-  fold_left (fun (acc : dset * res unit) p =>
-               match snd acc with
-               | Ok _ => ds_rename_axis (ByName (fst p)) (snd p) (fst acc)
-               | Err e => acc end) m (s, Ok tt).
+  if forallb (fun p => mem_str (fst p) (ds_dims s)) m then
+    ds_set_dims (map (fun d => match find (fun p => String.eqb (fst p) d) m with Some p => snd p | None => d end) (ds_dims s)) s
+  else (s, Err ValueError).
 
 (* ds.axes[d][i] = label : Axis.__setitem__ with the kind widening of _maybe_cast_type *)
 Definition ds_set_label (r : axref) (i : Z) (l : label) (lk : kind) (s : dset) : dset * res unit :=
